@@ -915,7 +915,7 @@ class Facts:
                     if c in new and b.id != c and not b.id.startswith(c + '::{'):
                         still_called.add(c)
         gone = new - still_called
-        self.body_list = [b for b in self.body_list if not (b.id in gone or any(b.id.startswith(g + '::{') for g in gone))]
+        self.body_list = [b for b in self.body_list if b.id not in gone]
         return sorted(new)
 
     _EXT = {
